@@ -1,7 +1,7 @@
 """C04 - no client input causes an internal error; HTTP/2 faults stay on their stream.
 
 Bounded exhaustive enumeration of client inputs, each executed against the real TCPServer / H11Protocol /
-H2Protocol / stream classes on the virtual-time asyncio loop and on instrumented trio.  Five families:
+H2Protocol / stream classes on the virtual-time asyncio loop and on instrumented trio.  Six families:
 
   short   every byte string of length <= 3 (quick) / 4 (thorough) over a 12 byte alphabet, as the first bytes of
           an HTTP/1 connection and directly after the HTTP/2 client preface, followed by EOF or by a valid
@@ -13,10 +13,14 @@ H2Protocol / stream classes on the virtual-time asyncio loop and on instrumented
           left to the idle timer).  Quick runs the full set on asyncio and a subset of the operators on trio.
   splice  prefix of session A up to a structural boundary (line / chunk / frame) followed by the suffix of
           session B from a structural boundary; every A, B and pair of boundaries; whole and split at the joint.
+  flood   one legal frame repeated 1100 times (PRIORITY on idle streams, with idle parents, PING, SETTINGS,
+          WINDOW_UPDATE on the connection / a closed stream, RST_STREAM on a closed stream, empty DATA, unknown
+          type, GET), in one read and in reads of 64 frames, followed by an ordinary request.
   odd     Explorer A (deviation-bounded interleavings, M mid-flight injections, S pre-emptions, trio R) of the
           HTTP-level oddities the property names (DATA / trailers after the response completed, CONNECT without
-          :path, non-ASCII :path on a request and on an extended CONNECT) next to a healthy sibling stream that
-          is answered before (application gated, released by the explorer) or after the oddity.
+          :path, non-ASCII :path on a request and on an extended CONNECT; also RST_STREAM on an open / closed
+          stream, WINDOW_UPDATE and an unknown frame on a closed stream, and a plain POST as control) next to a
+          healthy sibling stream that is answered before (application gated, released by the explorer) or after.
   gram    Explorer B (breadth-first over operation histories with canonical-state de-duplication) over an HTTP/2
           frame grammar of ~35 client-legal-but-rare operations on two streams (HEADERS in 10-12 shapes incl.
           CONTINUATION / padding / priority / plain and extended CONNECT / non-ASCII path, DATA +-END_STREAM
@@ -57,7 +61,8 @@ from mc.harness import default_observation, describe, exc_site, generic_violatio
 from mc.x_c04_gen import (ANSWERED_AT_ONCE, APPS, CORPUS, H1_GET, H2_GET, SESSIONS, ClientModel, boundaries,
                           case_events, grammar_events, grammar_kinds, grammar_roots, mutation_cases, session_bytes,
                           short_strings)
-from mc.x_c04_ref import PREFACE, h1_expect, h2_expect, h2_preamble, make_raw_client
+from mc.x_c04_ref import (f_data, f_headers, f_ping, f_priority, f_rst, f_settings, f_winup, frame, h1_expect,
+                          h2_expect, h2_preamble, make_raw_client)
 
 ID = "C04"
 LEVEL = "model_checking"
@@ -79,14 +84,14 @@ ASSUMPTIONS = [
 ]
 BOUNDS_DOC = {
     "quick": "short strings len<=3; mutations: all on asyncio, 4 operators on trio; splices whole+split (trio whole); "
-             "odd: M<=1,S<=2; grammar BFS depth 3 on asyncio, 2 on trio",
+             "floods of 1100 frames; odd: M<=1,S<=2; grammar BFS depth 3 on asyncio, 2 on trio",
     "thorough": "short strings len<=4 (asyncio; 3 on trio); all mutations on both engines with EOF and idle-timer "
-                "endings; splices; odd: M<=2,S<=3,R<=1; grammar BFS depth 4 on asyncio, 3 on trio",
+                "endings; splices; floods of 1100 frames; odd: M<=2,S<=3,R<=1; grammar BFS depth 5 on asyncio, 4 on trio",
 }
 BUDGET = {"quick": 90, "thorough": 1200}
 
 H1_CARRIERS = ("h1", "ws/h1", "h2c", "h2pk")
-H2_TLS = {"carrier": "h2", "tls": True, "alpn": "h2"}
+H2_TLS: Dict[str, Any] = {"carrier": "h2", "tls": True, "alpn": "h2"}
 
 # ---------------------------------------------------------------------------------------------
 # scenarios
@@ -101,7 +106,17 @@ ODDITIES = {
     "connect_plain": [("H", "connect_plain")],
     "nonascii": [("H", "nonascii")],
     "nonascii_ws": [("H", "nonascii_ws")],
+    # legal-but-rare frames of the quantifier that concern one stream only
+    "rst_open": [("H", "never"), ("R", None)],
+    "rst_closed": [("H", "get"), ("R", None)],
+    "winup_closed": [("H", "get"), ("W", "slot+1")],
+    "unknown_closed": [("H", "get"), ("U", "slot+1")],
 }
+
+
+FLOOD_N = 1100
+FLOODS = ("priority_idle", "priority_idle_parent", "ping", "settings", "winup0", "unknown", "winup_closed",
+          "rst_closed", "data_empty", "get")
 
 
 def scenarios(tier: str) -> List[Any]:
@@ -123,6 +138,8 @@ def scenarios(tier: str) -> List[Any]:
         for a in SESSIONS:
             for b in SESSIONS:
                 out.append(("splice", engine, a, b, tier))
+        for op in FLOODS:
+            out.append(("flood", engine, op, FLOOD_N))
         for odd in ODDITIES:
             for arr in ("sib_first", "sib_after"):
                 out.append(("odd", engine, odd, arr))
@@ -269,6 +286,14 @@ def judge_bytes(w: Any, conn: dict) -> List[dict]:
         if err is not None and not broken and (ending or rec.closed_at is None):
             out.append(V("h2-violation-not-closed", f"{tag}:{err}",
                          f"reference: {err}; closed_at={rec.closed_at} goaway={rec.client.h2.goaway}"))
+        last = conn.get("flood_last")
+        # the request after a legal flood must be served, unless the server chose to end the connection
+        # (GOAWAY / close is an accepted way of refusing a flood)
+        if last is not None and err is None and not broken and ending and rec.client.h2.goaway is None:
+            st = rec.client.h2.streams.get(last)
+            if st is None or st["status"] != 200 or st["body"] != b"abc" or not st["ended"]:
+                out.append(V("stream-not-served", f"{tag}:after-flood", f"stream {last}: {st}; closed_at={rec.closed_at} "
+                             f"goaway={rec.client.h2.goaway} handler={rec.handler}"))
         return out
     if conn["carrier"] not in H1_CARRIERS:
         return out
@@ -365,8 +390,55 @@ def splice_case(params: tuple, case: tuple) -> Tuple[dict, List[tuple]]:
     return dict(CORPUS[a][0]), [("data", 0, s) for s in segs if s] + [("eof", 0)]
 
 
+def flood_case(params: tuple, case: tuple) -> Tuple[dict, List[tuple]]:
+    """One legal frame repeated n times (in one read / in reads of 64 frames), then an ordinary GET."""
+    _, engine, op, n = params
+    feed = case[0]
+    get = lambda sid: f_headers(sid, _GET_NOW, True)  # noqa: E731
+    head = b""
+    last = 1
+    if op == "priority_idle":
+        frames = [f_priority(1 + 2 * i, 0, 10) for i in range(n)]
+        last = 1 + 2 * n
+    elif op == "priority_idle_parent":
+        frames = [f_priority(1 + 4 * i, 3 + 4 * i, 10) for i in range(n)]
+        last = 1 + 4 * n
+    elif op == "ping":
+        frames = [f_ping()] * n
+    elif op == "settings":
+        frames = [f_settings({4: 65535 + (i % 2)}) for i in range(n)]
+    elif op == "winup0":
+        frames = [f_winup(0, 1)] * n
+    elif op == "unknown":
+        frames = [frame(0x7F, 0, 0, b"zz")] * n
+    elif op == "winup_closed":
+        head, frames, last = get(1), [f_winup(1, 1)] * n, 3
+    elif op == "rst_closed":
+        head, frames, last = get(1), [f_rst(1, 8)] * n, 3
+    elif op == "data_empty":
+        head = f_headers(1, [(b":method", b"POST"), (b":path", b"/never"), (b":scheme", b"https"),
+                             (b":authority", b"hypercorn")], False)
+        frames, last = [f_data(1, b"", False)] * n, 3
+    elif op == "get":
+        frames = [get(1 + 2 * i) for i in range(n)]
+        last = 1 + 2 * n
+    else:
+        raise ValueError(op)
+    if feed == "whole":
+        segs = [head + b"".join(frames)] if head or frames else []
+    else:
+        segs = ([head] if head else []) + [b"".join(frames[i:i + 64]) for i in range(0, n, 64)]
+    events = [("data", 0, h2_preamble())] + [("data", 0, x) for x in segs] + [("data", 0, get(last)), ("eof", 0)]
+    return {**H2_TLS, "flood_last": last}, events
+
+
+_GET_NOW = [(b":method", b"GET"), (b":path", b"/now"), (b":scheme", b"https"), (b":authority", b"hypercorn")]
+
+
 def _cases(params: tuple) -> Any:
     kind = params[0]
+    if kind == "flood":
+        return [("whole",), ("reads",)]
     if kind == "short":
         return short_strings(params[4])[params[5]:params[6]]
     if kind == "mut":
@@ -378,7 +450,7 @@ def _cases(params: tuple) -> Any:
 
 def _exec_case(params: tuple, case: Any) -> ExecResult:
     kind = params[0]
-    conn, events = {"short": short_case, "mut": mut_case, "splice": splice_case}[kind](params, case)
+    conn, events = {"short": short_case, "mut": mut_case, "splice": splice_case, "flood": flood_case}[kind](params, case)
     return run_bytes(params[1], conn, events, (params[:3], case))
 
 
@@ -442,7 +514,7 @@ def _odd_plan(odd: str, arr: str) -> Tuple[List[tuple], int]:
     else:
         slot = 0
     for op in own:
-        ops.append(tuple(slot if x is None else x for x in op))
+        ops.append(tuple(slot if x is None else slot + 1 if x == "slot+1" else x for x in op))
     if arr == "sib_after":
         ops.append(("H", "get"))
         return ops, len(ops) - 1
